@@ -341,7 +341,27 @@ def inline_helpers(prog: Program, fn: FuncInfo, node: FuncNode | None = None, ex
                             for nn in ast.walk(st):
                                 if isinstance(nn, ast.Name) and nn.id in ren:
                                     nn.id = ren[nn.id]
-                        sub = _Subst({k: v for k, v in binds.items() if k not in locals_h})
+                        # Arguments are substituted for the parameters only where that cannot reorder
+                        # evaluation: in a block helper that writes state, an argument that reads state
+                        # (`self._block_for(min(2 * self.last, self.max), now)`) is bound to a fresh local
+                        # first, exactly as the call would evaluate it before the body runs.
+                        prelude: list[ast.stmt] = []
+                        writes_state = kind == "block" and any(
+                            isinstance(n, (ast.Attribute, ast.Subscript)) and isinstance(n.ctx, (ast.Store, ast.Del))
+                            or isinstance(n, ast.Call) and not _is_pure(n) for st in hb for n in ast.walk(st))
+                        direct: dict[str, ast.AST] = {}
+                        for k, v in binds.items():
+                            if k in locals_h:
+                                continue
+                            reads_state = any(isinstance(n, (ast.Attribute, ast.Subscript, ast.Call)) for n in ast.walk(v))
+                            if writes_state and reads_state and not _has_await(v):
+                                fresh = f"{k}__{h.name.strip('_')}"
+                                prelude.append(ast.copy_location(ast.Assign(
+                                    targets=[ast.Name(id=fresh, ctx=ast.Store())], value=copy.deepcopy(v)), s))
+                                direct[k] = ast.Name(id=fresh, ctx=ast.Load())
+                            else:
+                                direct[k] = v
+                        sub = _Subst(direct)
                         hb = [sub.visit(st) for st in hb]
                         if kind == "cond":
                             ce = _to_expr(hb)
@@ -365,7 +385,8 @@ def inline_helpers(prog: Program, fn: FuncInfo, node: FuncNode | None = None, ex
                             continue
                         tail = hb[-1] if hb and isinstance(hb[-1], ast.Return) else None
                         stmts = hb[:-1] if tail is not None else hb
-                        new_stmts: list[ast.stmt] = [ast.copy_location(x, s) if not hasattr(x, "lineno") else x for x in stmts]
+                        new_stmts: list[ast.stmt] = prelude + [
+                            ast.copy_location(x, s) if not hasattr(x, "lineno") else x for x in stmts]
                         if isinstance(s, ast.Expr):
                             pass
                         elif tail is not None and tail.value is not None:
